@@ -57,6 +57,12 @@ NATIVE = {
     'n_mbi_getters_many_tags': dict(crate='multiboot2', file='boot_information.rs', props=['C04', 'C03'],
         bound='20 getter kinds x {0,1,2,7,8,9,19..23,40,100,1100} filler tags x wanted kind present twice / absent, EFI map vs boot-services tag in both orders with 0/1/30 fillers, module iterator with 0/3/25 modules (572 regions); every getter compared with the first tag of its type in the walk',
         functions=['BootInformation::get_tag and all typed getters, efi_memory_map_tag rule, module_tags beyond the Kani region sizes (Iterator::find / filter with closures are outside this Verus)']),
+    'n_ctor_large_contents': dict(crate='multiboot2', file='tag.rs', props=['C07', 'C16', 'C17'],
+        bound='variable-length constructors with LARGE contents: strings of 0..=40, 63..65, 127, 128, 255..257, 300 bytes (cmdline, boot loader name, module); palettes of 0..65535 colours; network / SMBIOS / ELF / EFI-map payloads of 0..70000 bytes; 0..3000 memory areas (217 cases); byte image vs. the specification encoding, accessors read back',
+        functions=['CommandLineTag::new', 'BootLoaderNameTag::new', 'ModuleTag::new', 'FramebufferTag::new + FramebufferType::serialize', 'NetworkTag::new', 'SmbiosTag::new', 'ElfSectionsTag::new', 'EFIMemoryMapTag::new_from_map', 'MemoryMapTag::new', 'new_boxed (large totals)']),
+    'n_inforeq_large_lists': dict(crate='multiboot2-header', file='information_request.rs', props=['C07', 'C12'],
+        bound='information request with 0..=20, 63..65, 255, 256, 1000, 2035, 2036, 3000 entries x both flags (60 cases): image vs. specification encoding, read back, built into a header and walked',
+        functions=['InformationRequestHeaderTag::new', 'Builder::build + Multiboot2Header::load on headers beyond 8192 bytes']),
     'n_builder_roundtrip': dict(crate='multiboot2', file='builder.rs', props=['C06'],
         bound='real Builder run natively on 1711 cases: empty, full, every single slot, every 18-of-19 subset, all pairs, 1500 pseudo-random subsets (seeded by VERIF_SEED); three call orders; repeated setter calls; 0..=3 modules (descending addresses) / SMBIOS / custom tags (duplicate id) interleaved; oracle = supplied tag images in the documented order + end tag vs BootInformation::load(..).tags()',
         functions=['Builder::build and all setters on COMPILED code (cross-check of the Verus proof; Kani cannot compile the builder)']),
